@@ -302,3 +302,12 @@ Example header_pre_example :
   let b := of_list (header_bytes true 12 12 (Some [77;79;78;83]) ++ [1;0;0;0]) in
   header_pre 16 b 12 /\ stored_identifier b true = Some 1397641037 /\ rd32 b 0 = Some 12.
 Proof. cbn zeta. split; [unfold header_pre; cbn; lia|]. split; vm_compute; reflexivity. Qed.
+
+(* runtime identifier of a name = the generated type identifier (also for names whose raw FNV is zero) *)
+Lemma identifier_from_name_agrees : forall scope name rest,
+  Forall nul_free scope -> nul_free name ->
+  identifier_from_name (qualified_name scope name ++ 0 :: rest) = compile_type_identifier scope name.
+Proof.
+  intros scope name rest Hs Hn. unfold identifier_from_name, compile_type_identifier.
+  destruct (hash_agree scope name rest Hs Hn) as [_ H]. rewrite H. reflexivity.
+Qed.
